@@ -22,6 +22,7 @@ import resource
 import struct
 import subprocess
 import glob
+import shutil
 from concurrent.futures import ThreadPoolExecutor
 
 from lib.common import (InfraError, NCPU, REPO, VERIF, findings_for, load_findings, log, sha, sh, tlc)
@@ -100,34 +101,27 @@ def concretise_derivation(rec):
     return text
 
 
-def nesting_inputs(tier):
-    out = []
-    ns = [999, 1000, 1001, 5000, 100000]       # 100000: far beyond the C stack if a depth guard is missing
+def shape_text(r):
+    """concatenate a shape emitted by FrontEndShapes.tla; '#' in the repeated unit is the repetition index"""
+    k = r["n"] // r.get("div", 1)
+    if "#" in r["open"]:
+        body = "".join(r["open"].replace("#", str(i)) for i in range(k))
+    else:
+        body = r["open"] * k
+    return r["pre"] + body + r["core"] + r["close"] * k + r["post"]
 
-    def add(kind, n, body):
-        out.append((("fn main() -> int {\n" + body + "\nreturn 0 }\n").encode(), 0, dict(fam="nest", kind=kind, n=n)))
-    for n in ns:
-        add("prefix-parens", n, "let v: int = " + "(+ 1 " * n + "1" + ")" * n)
-        add("group-parens", n, "let v: int = " + "(" * n + "1" + ")" * n)
-        add("open-parens", n, "let v: int = " + "(" * n)
-        add("open-prefix", n, "let v: int = " + "(+ 1 " * n)
-        add("blocks", n, "if true { " * n + "}" * n)
-        add("open-blocks", n, "if true { " * n)
-        add("if-chain", n, "if false { }" + "\n else if false { }" * n + " else { }")
-        add("unary-minus", n, "let v: int = " + "- " * n + "1")
-        add("unary-not", n, "let v: bool = " + "not " * n + "true")
-        add("arrays", n, "let v: int = " + "[" * n + "1" + "]" * n)
-        add("field-chain", n, "let v: int = a" + "\n.b" * n)
-        add("tuple-parens", n, "let v: int = " + "(1, " * n + "1" + ")" * n)
-        add("call-chain", n, "let v: int = " + "(f " * n + "1" + ")" * n)
-        add("struct-lit", n, "let v: int = " + "P { a: " * n + "1" + " }" * n)
-        add("match-nest", n, "match x { A(a) => { " * n + "}" * (2 * n))
-    for n in [1999, 2000, 2001, 5000, 200000]:
-        # one operator per line: the diagnostics echo the source line
-        add("infix-chain", n, "let v: int = 1" + "\n + 1" * n)
-        add("and-chain", n, "let v: bool = true" + "\n and true" * n)
-        add("tuple-index-chain", n, "let v: int = t" + "\n.0 " * n)
-    return out
+
+def nesting_inputs(ctx, tier):
+    """deep shapes: every recursive syntactic category of FrontEndShapes.tla at depths 10^2 .. 10^5"""
+    sizes = "{100, 999, 1000, 1001, 10000, 100000}" if tier == "quick" else "{100, 999, 1000, 1001, 2000, 5000, 10000, 30000, 100000}"
+    r = tlc(ctx, "FrontEndShapes", "FrontEndShapes_deep", timeout=600, constants={"Sizes": sizes})
+    recs = [x for x in r.records if x.get("kind") == "deep"]
+    if len(recs) < 40:
+        raise InfraError("FrontEndShapes emitted only %d deep shapes" % len(recs))
+    out = []
+    for x in recs:
+        out.append((shape_text(x).encode(), 0, dict(fam="nest", kind=x["name"], cat=x["cat"], n=x["n"])))
+    return out, sorted({x["cat"] for x in recs}), sorted({x["name"] for x in recs})
 
 
 def byte_inputs(tier, rnd):
@@ -304,8 +298,11 @@ def match_finding(findings, kind, loop=None, site=None, meta=None):
             continue
         if kind == "HANG" and mt.get("loop") == loop:
             return f
+        if kind == "SLOW" and meta and meta.get("kind") in mt.get("shapes", []):
+            return f
         if kind == "CRASH" and mt.get("input_family") and meta and meta.get("fam") == mt["input_family"] and \
-                meta.get("kind") in mt.get("kinds", []) and meta.get("n", 0) >= mt.get("min_n", 0):
+                (meta.get("kind") in mt.get("kinds", []) or set(meta.get("feats", [])) & set(mt.get("features", []))) and \
+                meta.get("n", 0) >= mt.get("min_n", 0):
             return f
         if kind in ("SANITIZER", "CRASH") and site and mt.get("function") in site[1][:1] and \
                 (not mt.get("report") or mt.get("report") == site[0]) and \
@@ -315,15 +312,212 @@ def match_finding(findings, kind, loop=None, site=None, meta=None):
     return None
 
 
+# ------------------------------------------------------------------------------------------- module graphs
+MOD_BODY = {"a": "fn fa(x: int) -> int { return (+ x 1) }\nshadow fa { assert (== (fa 1) 2) }\nfn main() -> int { return (fa 0) }\n",
+            "b": "fn fb(x: int) -> int { return (+ x 2) }\nshadow fb { assert (== (fb 1) 3) }\n",
+            "c": "fn fc(x: int) -> int { return (+ x 3) }\nshadow fc { assert (== (fc 1) 4) }\n"}
+MOD_SPECIAL = {"missing": "nosuch.nano", "dir": "adir.nano", "bad": "bad.nano"}
+
+
+def write_module_graph(d, g):
+    """files of one import graph emitted by FrontEndModules.tla"""
+    os.makedirs(d, exist_ok=True)
+    for f in ("a", "b", "c"):
+        imps = ["import \"%s.nano\" as M%s\n" % (t, t.upper()) for t in g[f]]
+        if g["sfrom"] == f:
+            imps.append("import \"%s\" as SP\n" % MOD_SPECIAL[g["special"]])
+        with open(os.path.join(d, f + ".nano"), "w") as fh:
+            fh.write("".join(imps) + MOD_BODY[f])
+    os.makedirs(os.path.join(d, "adir.nano"), exist_ok=True)
+    with open(os.path.join(d, "bad.nano"), "w") as fh:
+        fh.write("fn fbad( {\n")
+
+
+def run_driver(ctx, cmd, cwd, limit_s=60, extra_env=None):
+    env = dict(os.environ)
+    env.update(ctx.env(extra_env))
+    for k2 in [x for x in env if x.startswith("NANOLANG_VERIF_")]:
+        env.pop(k2)
+    try:
+        p = subprocess.run(cmd, cwd=cwd, env=env, stdout=subprocess.PIPE, stderr=subprocess.PIPE, timeout=limit_s)
+    except subprocess.TimeoutExpired:
+        return dict(kind="timeout", rc=None, err="")
+    err = p.stderr.decode(errors="replace")
+    if "AddressSanitizer" in err or "runtime error:" in err:
+        kind = "sanitizer"
+    elif p.returncode < 0:
+        kind = "signal"
+    elif p.returncode == 0:
+        kind = "accepted"
+    elif p.returncode == 1:
+        kind = "rejected" if (err.strip() or p.stdout.strip()) else "rejected-silently"
+    else:
+        kind = "exit%d" % p.returncode
+    return dict(kind=kind, rc=p.returncode, err=err[:6000] if kind == "sanitizer" else err[-800:])
+
+
+def stage_modules(ctx, tier, findings, asan_tree, plain_tree, violation):
+    """import graphs (FrontEndModules.tla): the loader model is checked, every graph is replayed through
+    nano_virt (ASan build) and nanoc (plain build, C compiler stubbed out) and compared with the prescribed verdict"""
+    # quick: every graph with <= 3 import edges (self-loop, 2-cycle, 3-cycle, diamond ...) and, separately, the special
+    # targets on graphs with <= 1 edge; thorough: all 512 graphs x (no special | 3 specials x 3 importing files)
+    recs, mstates, mtrans = [], 0, 0
+    for cfg in (("FrontEndModules_q", "FrontEndModules_qs") if tier == "quick" else ("FrontEndModules",)):
+        r = tlc(ctx, "FrontEndModules", cfg, timeout=1800)
+        if r.violated:
+            raise InfraError("FrontEndModules/%s: %s violated without deviation:\n%s" % (cfg, r.violated, "\n".join(r.trace)[-1200:]))
+        recs += r.records
+        mstates += r.distinct
+        mtrans += r.generated
+    d = tlc(ctx, "FrontEndModules", "FrontEndModules_dev", timeout=600)
+    if d.violated != "DepthBound":
+        raise InfraError("IMPORT_CYCLE_UNCHECKED was expected to break DepthBound; TLC says %r" % d.violated)
+    graphs, seen = [], set()
+    for g in recs:
+        if "expect" not in g:
+            continue
+        key = json.dumps(g, sort_keys=True)
+        if key not in seen:
+            seen.add(key)
+            graphs.append(g)
+    virt = os.path.join(asan_tree, "bin", "nano_virt")
+    nanoc = os.path.join(plain_tree, "bin", "nanoc_c")
+    base = ctx.dir("modgraphs")
+    stats = dict(graphs=len(graphs), runs=0, agree=0, accepted_although_spec_rejects={}, crashes=0, states=mstates, transitions=mtrans,
+                 by_expect={})
+    known_hits = {}
+
+    def one(k):
+        g = graphs[k]
+        gd = os.path.join(base, "g%05d" % k)
+        write_module_graph(gd, g)
+        a = run_driver(ctx, [virt, "a.nano", "--emit-nvm", "-o", "a.nvm"], gd,
+                       extra_env={"ASAN_OPTIONS": "detect_leaks=0:abort_on_error=1:symbolize=0"})   # the report's frames are not needed here
+        b = run_driver(ctx, [nanoc, "a.nano", "-o", "a.exe"], gd, extra_env={"NANO_CC": "/bin/true"})
+        return k, gd, a, b
+    with ThreadPoolExecutor(max_workers=NCPU) as ex:
+        for k, gd, a, b in ex.map(one, range(len(graphs))):
+            g = graphs[k]
+            stats["runs"] += 2
+            stats["by_expect"][g["expect"]] = stats["by_expect"].get(g["expect"], 0) + 1
+            keep = False
+            for drv, c in (("nano_virt", a), ("nanoc", b)):
+                feats = (["cycle"] if g.get("cycle") else []) + ([g["special"]] if g.get("sreach") and g["special"] != "-" else [])
+                m = dict(fam="modgraph", kind=g["expect"], feats=feats, graph={x: g[x] for x in ("a", "b", "c", "sfrom", "special")},
+                         driver=drv, n=0)
+                if c["kind"] in ("signal", "sanitizer", "timeout", "rejected-silently") or c["kind"].startswith("exit"):
+                    stats["crashes"] += 1
+                    f = match_finding(findings, "CRASH", meta=m)
+                    if f:
+                        known_hits[f["id"]] = known_hits.get(f["id"], 0) + 1
+                        ctx.known(f["id"], "%s ends with %s (rc %s) on the import graph %s, prescribed: %s" % (
+                            drv, c["kind"], c["rc"], json.dumps(m["graph"]), g["expect"]))
+                    else:
+                        keep = True
+                        path = ctx.save_replay("modgraph-%s" % sha(json.dumps(m["graph"], sort_keys=True)), src=gd)
+                        json.dump(dict(property=PROP, meta=m, err=c["err"]), open(os.path.join(path, "verdict.json"), "w"), indent=1)
+                        violation("%s ends with %s (rc %s) on an import graph; the loader model prescribes %s" % (drv, c["kind"], c["rc"], g["expect"]),
+                                  None, m, replay_path=path)
+                elif g["expect"] == "accepted" and c["kind"] != "accepted":
+                    keep = True
+                    path = ctx.save_replay("modgraph-%s" % sha(json.dumps(m["graph"], sort_keys=True)), src=gd)
+                    violation("%s rejects an acyclic import graph of well-formed modules: %s" % (drv, c["err"][-200:]), None, m, replay_path=path)
+                elif g["expect"] != "accepted" and c["kind"] == "accepted":
+                    # terminates, exit 0: total -- but an ill-formed module graph was accepted (a C05 matter); counted
+                    w = stats["accepted_although_spec_rejects"]
+                    w[g["expect"] + "/" + drv] = w.get(g["expect"] + "/" + drv, 0) + 1
+                else:
+                    stats["agree"] += 1
+            if not keep:
+                shutil.rmtree(gd, ignore_errors=True)
+    stats["known"] = known_hits
+    return stats
+
+
+# ------------------------------------------------------------------------------------------- time against size
+def source_limit_bytes(tree):
+    """the documented bound on an input: read_file() of the drivers refuses larger files"""
+    m = re.search(r"len\s*>\s*(\d+)\s*\*\s*(\d+)\s*\*\s*(\d+)", open(os.path.join(tree, "src", "nanovirt", "main.c")).read())
+    return int(m.group(1)) * int(m.group(2)) * int(m.group(3)) if m else 10 * 1024 * 1024
+
+
+def stage_scaling(ctx, tier, findings, plain_probe, plain_tree, violation):
+    """wide shapes (FrontEndShapes.tla) at three sizes through the front end alone (fe_probe, plain build): CPU time
+    against size, growth exponent, extrapolation to the documented source limit"""
+    budget_s = 60.0
+    cap_s = 40 if tier == "quick" else 150
+    sizes = [1000, 4000, 16000] if tier == "quick" else [4000, 16000, 64000]
+    r = tlc(ctx, "FrontEndShapes", "FrontEndShapes_wide", timeout=600, constants={"Sizes": "{" + ", ".join(map(str, sizes)) + "}"})
+    recs = [x for x in r.records if x.get("kind") == "wide"]
+    if len(recs) < 3 * 10:
+        raise InfraError("FrontEndShapes emitted only %d wide shapes" % len(recs))
+    limit = source_limit_bytes(plain_tree)
+    work = ctx.dir("scaling")
+    env = dict(os.environ)
+    env.update(ctx.env())
+    for k2 in [x for x in env if x.startswith("NANOLANG_VERIF_")]:
+        env.pop(k2)
+
+    def measure(x):
+        data = shape_text(x).encode()
+        d = os.path.join(work, "%s.%d" % (x["name"], x["n"]))
+        os.makedirs(d, exist_ok=True)
+        write_inputs(os.path.join(d, "in.bin"), [(data, 0, None)])
+        cmd = [plain_probe, os.path.join(d, "in.bin"), os.path.join(d, "res.txt"), d, str(cap_s * 1000), str(cap_s * 3000), "4096"]
+        p = subprocess.Popen(cmd, env=env, stdout=subprocess.DEVNULL, stderr=subprocess.DEVNULL)
+        _, status, ru = os.wait4(p.pid, 0)
+        p.returncode = status
+        cpu = ru.ru_utime + ru.ru_stime
+        verdictline = [l for l in open(os.path.join(d, "res.txt"), errors="replace") if l[:1].isdigit()] if os.path.exists(os.path.join(d, "res.txt")) else []
+        v = verdictline[0].split()[1] if verdictline else "ok"
+        return x, len(data), cpu, v, data
+    rows = {}
+    with ThreadPoolExecutor(max_workers=NCPU) as ex:
+        for x, nbytes, cpu, v, data in ex.map(measure, recs):
+            rows.setdefault(x["name"], []).append((x["n"], nbytes, cpu, v, data))
+    import math
+    table, slow = {}, []
+    for name, rs in sorted(rows.items()):
+        rs.sort()
+        (n1, b1, t1, v1, _), (n2, b2, t2, v2, _), (n3, b3, t3, v3, d3) = rs
+        timed_out = v3 == "H" or t3 >= cap_s * 0.95
+        alpha = math.log(max(t3, 1e-3) / max(t2, 1e-3)) / math.log(b3 / b2) if t2 >= 0.02 else 1.0
+        at_limit = t3 * (limit / b3) ** max(alpha, 1.0)
+        table[name] = dict(cpu_s=[round(t1, 3), round(t2, 3), round(t3, 3)], bytes=[b1, b2, b3], exponent=round(alpha, 2),
+                           extrapolated_s_at_source_limit=round(at_limit, 1), verdicts=v1 + v2 + v3)
+        # flag only what is both measurable and clearly super-linear
+        if timed_out or (t3 >= 0.25 and alpha >= 1.5 and at_limit > budget_s):
+            slow.append((name, table[name], d3, n3))
+    known_hits = {}
+    for name, row, d3, n3 in slow:
+        m = dict(fam="scale", kind=name, n=n3, exponent=row["exponent"], cpu_s=row["cpu_s"])
+        f = match_finding(findings, "SLOW", meta=m)
+        text = "front-end time grows like size^%.1f on shape '%s' (%s s CPU at %s bytes): about %.0f s at the %d-byte source limit, budget %d s" % (
+            row["exponent"], name, row["cpu_s"], row["bytes"], row["extrapolated_s_at_source_limit"], limit, budget_s)
+        if f:
+            known_hits[f["id"]] = known_hits.get(f["id"], 0) + 1
+            ctx.known(f["id"], text)
+        else:
+            violation(text, d3, m)
+    return dict(shapes=len(rows), sizes=sizes, source_limit_bytes=limit, budget_s=budget_s, table=table,
+                flagged=[x[0] for x in slow], known=known_hits)
+
+
 # ------------------------------------------------------------------------------------------- main entry
 def run(ctx):
     tier = ctx.tier
     rnd = random.Random(ctx.seed)
     findings = findings_for(PROP)
     asan_tree, hooked = build_with_hook(ctx, "asan")
-    plain_tree = ctx.build("plain", targets=("nano_virt",))
+    plain_tree = ctx.build("plain", targets=("nano_virt",), nanoc=True)
     probe = ctx.probe("fe_probe", "asan")
+    plain_probe = ctx.probe("fe_probe", "plain")
     real = RealBinary(ctx, asan_tree, plain_tree)
+
+    def frontend_dies_plain(data):
+        """front end alone (no code generator) on the uninstrumented build: does the worker die from a signal?"""
+        _, ev = run_probe(ctx, plain_probe, [(data, 0, None)], "plainfe%d" % real.n, fuel="", cpu_ms=60000)
+        return any(e[1] == "C" for e in ev)
 
     # ---- model checking of the cursor machine
     model = {}
@@ -374,7 +568,7 @@ def run(ctx):
     if n_valid < 5:
         raise InfraError("too few valid derivations (%d)" % n_valid)
     b_items = byte_inputs(tier, rnd)
-    n_items = nesting_inputs(tier)
+    n_items, nest_cats, nest_shapes = nesting_inputs(ctx, tier)
     for it in b_items + n_items:
         if it[0] not in seen:
             seen.add(it[0])
@@ -397,10 +591,13 @@ def run(ctx):
     # ---- judge
     viol_n = [0]
 
-    def violation(what, data, meta, extra=None):
+    def violation(what, data, meta, extra=None, replay_path=None):
         viol_n[0] += 1
         if viol_n[0] > 15:
             ctx.violations.append(dict(what="(counted only)", replay=""))
+            return
+        if replay_path:
+            ctx.violation("%s; input class %s" % (what, json.dumps(meta, default=str)[:300]), replay_path)
             return
         name = "input-%s.nano" % sha(data)
         path = ctx.save_replay(name, data)
@@ -439,13 +636,14 @@ def run(ctx):
             else:
                 log("C09: %d in-process hang verdicts in '%s' not confirmed by the real binary (%s): not reported" % (len(idxs), loop, conf[:3]))
         elif v in ("C", "S"):
-            for i in idxs[:25]:
+            for i in idxs[:25] + [j for j in idxs[25:] if isinstance(items[j][2], dict) and items[j][2].get("fam") == "nest"]:
                 c = real.run(items[i][0], sanitize=True, limit_s=60)
                 if c["kind"] == "sanitizer" and "stack-overflow" in c["err"][:400]:
                     # ASan frames are several times larger than the real ones: a stack overflow counts only
                     # if the uninstrumented binary dies on the same input
                     c2 = real.run(items[i][0], sanitize=False, limit_s=60)
-                    if c2["kind"] != "signal":
+                    if c2["kind"] != "signal" or not frontend_dies_plain(items[i][0]):
+                        # (a signal of nano_virt alone may come from the code generator, which is not the front end)
                         log("C09: stack overflow under ASan only (%s; plain build: %s): not reported" % (meta(items[i]), c2["kind"]))
                         continue
                     site = san_site(c["err"], asan_tree)
@@ -494,6 +692,16 @@ def run(ctx):
             c = real.run(w.encode(), sanitize=(f["match"].get("verdict") != "HANG"), limit_s=8)
             if c["kind"] in ("accepted", "rejected"):
                 log("known finding %s is stale: its witness now ends with '%s'" % (f["id"], c["kind"]))
+
+    # ---- import graphs and time against size
+    mod_cov = stage_modules(ctx, tier, findings, asan_tree, plain_tree, violation)
+    log("C09: import graphs %s" % json.dumps({k: v for k, v in mod_cov.items() if k != "by_expect"}))
+    scale_cov = stage_scaling(ctx, tier, findings, plain_probe, plain_tree, violation)
+    log("C09: scaling flagged %s" % scale_cov["flagged"])
+    states += mod_cov["states"]
+    trans += mod_cov["transitions"]
+    for k2, v2 in list(mod_cov["known"].items()) + list(scale_cov["known"].items()):
+        known_counts[k2] = known_counts.get(k2, 0) + v2
 
     # ---- trace validation (hook H6 -> FrontEndTrace.tla)
     trace_cov = dict(events=0, validated_inputs=0)
@@ -570,6 +778,7 @@ def run(ctx):
         known_finding_inputs=known_counts, valid_derivations_accepted=n_valid - sum(1 for e in events if e[1] == "x"),
         valid_derivations=n_valid, model=model, states=states, transitions=trans,
         trace_validation=trace_cov, hooks_present=hooked, exhaustive_class_strings=True,
+        module_graphs=mod_cov, time_against_size=scale_cov, nesting_categories=nest_cats, nesting_shapes=nest_shapes,
         real_binary_confirmation_runs=real.n,
     )
     assumptions = [
@@ -585,11 +794,34 @@ def run(ctx):
 def replay(ctx, path):
     """Re-judge one artifact against the current tree.  A misbehaviour that a known-findings entry (status "known")
     explains is printed as KNOWN-FINDING and the exit status is 0, exactly as in run()."""
-    data = open(path, "rb").read()
+    data = b"" if os.path.isdir(path) else open(path, "rb").read()
     findings = findings_for(PROP)
     asan_tree, hooked = build_with_hook(ctx, "asan")
     plain_tree = ctx.build("plain", targets=("nano_virt",))
     real = RealBinary(ctx, asan_tree, plain_tree)
+    if os.path.isdir(path):
+        # an import graph (stage_modules): a.nano is the root
+        info = {}
+        if os.path.exists(os.path.join(path, "verdict.json")):
+            info = json.load(open(os.path.join(path, "verdict.json"))).get("meta") or {}
+        work = os.path.join(ctx.dir("replay"), "graph")
+        shutil.copytree(path, work)
+        ctx.build("plain", targets=("nano_virt",), nanoc=True)
+        a = run_driver(ctx, [os.path.join(asan_tree, "bin", "nano_virt"), "a.nano", "--emit-nvm", "-o", "a.nvm"], work)
+        b = run_driver(ctx, [os.path.join(plain_tree, "bin", "nanoc_c"), "a.nano", "-o", "a.exe"], work, extra_env={"NANO_CC": "/bin/true"})
+        print("nano_virt (asan): %s (rc %s)\nnanoc: %s (rc %s)\nprescribed by the loader model: %s\n%s" % (
+            a["kind"], a["rc"], b["kind"], b["rc"], info.get("kind", "?"), (a["err"] or b["err"])[-600:]))
+        bad = [c for c in (a, b) if c["kind"] not in ("accepted", "rejected")]
+        if info.get("kind") == "accepted" and (a["kind"] != "accepted" or b["kind"] != "accepted"):
+            bad = bad or [a]
+        if not bad:
+            return 0
+        f = match_finding(findings, "CRASH", meta=info)
+        if f:
+            ctx.known(f["id"], "a front end ends with %s on this import graph" % bad[0]["kind"])
+            return 0
+        print("VIOLATION property=%s replay=%s" % (PROP, path))
+        return 1
     if path.endswith(".ndjson"):
         switches = sorted({f["match"]["switch"] for f in findings if f.get("match", {}).get("switch")})
         dev = "{" + ", ".join('"%s"' % x for x in switches) + "}"
@@ -632,6 +864,7 @@ def replay(ctx, path):
         f = match_finding(findings, "CRASH", meta=info)
     elif a["kind"] == "timeout":
         what = "the front end does not finish within 60 s"
+        f = match_finding(findings, "SLOW", meta=info)
     elif b["kind"] == "rejected-silently":
         what = "the input is rejected without any diagnostic"
     if what is None:
